@@ -66,7 +66,10 @@ fn pat_list(u: &mut U, max_pats: usize) -> PatList {
         2 | 3 => PatList::RareBytes { rares: { let mut v = u.bytes(2); v.push(u.u8()); v }, items: (0..1 + u.below(9)).map(|_| (u.u8(), u.bytes(6), u.bytes(5), u.u8())).collect() },
         4 => PatList::Packedish((0..3 + u.below(14)).map(|_| { let mut v = u.bytes(6); v.push(u.u8()); v.push(u.u8()); v }).collect()),
         5 => PatList::Adversarial { kind: u.below(6) as u8, k: [1u16, 3, 8, 24, 48, 256, 300][u.below(7)], n: 1 + u.below(12) as u8 },
-        6 => PatList::Fanout { prefix: u.bytes(2), n: [2u16, 5, 126, 127, 128, 129, 253, 254, 255, 256][u.below(10)], start: u.u8(), tails: u.bytes(3) },
+        6 => {
+            let n = [2u16, 3, 5, 126, 127, 128, 129, 253, 254, 255, 256][u.below(11)];
+            PatList::Fanout { prefix: u.bytes(3), n, start: gen::fanout_start(n, u.u8(), u.below(10) as u8), tails: u.bytes(3) }
+        }
         10 => PatList::Utf8Starts { items: (0..1 + u.below(6)).map(|_| (u.u8(), u.bytes(5))).collect() },
         9 => PatList::DeepNested { unit: { let mut v = u.bytes(1); v.push(u.u8()); v }, n: [3u16, 20, 60, 255, 256, 257, 300][u.below(7)], reverse: u.bool() },
         8 => PatList::LongNested { base: (0..70 + u.below(70)).map(|_| u.u8()).collect(), cuts: (0..1 + u.below(4)).map(|_| (u.u16(), u.bool())).collect(), extra: (0..u.below(4)).map(|_| { let mut v = u.bytes(4); v.push(u.u8()); v.push(u.u8()); v }).collect(), rotate: u.u8() },
